@@ -17,13 +17,16 @@ NBYTES = {"I": 4, "U": 4, "L": 8, "Q": 8}
 
 def gen_keys(rng, kk, n):
     lo, hi = BOUNDS[kk]
-    style = rng.choice(["small", "wide", "extremes", "onebyte", "topbit", "dups"])
+    style = rng.choice(["small", "wide", "extremes", "onebyte", "topbit", "dups"] if n < 300 else
+                       ["mixed", "wide", "topbit", "mixed", "onebyte"])
     out = []
     for _ in range(n):
         if style == "small":
             k = rng.randint(max(lo, -300), 300)
         elif style == "wide":
             k = rng.randint(lo, hi)
+        elif style == "mixed":
+            k = rng.randint(lo, hi) if rng.random() < 0.15 else rng.choice([lo, hi, 0]) + rng.randint(-500, 500)
         elif style == "extremes":
             k = rng.choice([lo, lo + 1, hi, hi - 1, 0, 1, (lo + hi) // 2, (lo + hi) // 2 + 1, rng.randint(lo, hi)])
         elif style == "onebyte":
@@ -67,15 +70,22 @@ def build(f, impl, rng, part):
 def run(ctx):
     rng = ctx.rng
     fams = INT_FAMS
-    sizes_q = [0, 1, 2, 3, 24, 25, 26, 27, 60, 200, 799, 800, 801, 802, 1100]
+    sizes_q = [0, 1, 2, 3, 24, 25, 26, 27, 60, 200, 799, 800, 801, 802, 900, 1100]
     sizes_t = sizes_q + [2500, 5000]
     terms, meta = [], []
     sizehist = {}
+    paths = {}
     reps = ctx.n(1, 6)
+    bigfams = set()
+    for kt in "IULQ":
+        cands = [x for x in fams if x[0] == kt]
+        bigfams.add(cands[(ctx.seed + ord(kt)) % len(cands)])
     for fn in fams:
         f = fam(fn)
         kk = f.kk
         for n in (sizes_q if ctx.quick() else sizes_t):
+            if ctx.quick() and n > 1000 and fn not in bigfams:
+                continue
             for rep in range(reps if n > 30 else reps * 6):
                 keys = gen_keys(rng, kk, n)
                 parts = split(rng, keys)
@@ -87,6 +97,10 @@ def run(ctx):
                     r2 = _r.Random(seed)
                     with sizes([f.cls(k, impl) for k in ("BTree", "TreeSet")], 4, 3):
                         built = [build(f, impl, r2, p) for p in parts]
+                        short = n - sum(len(b[1]) for b in built)
+                        if n > 800 and short > 0:   # containers dropped repeats: top up so the radix path is taken
+                            extra = [keys[i % len(keys)] for i in range(short)]
+                            built.append((list(extra), list(extra)))
                         ops = [b[0] for b in built]
                         model_ops = [b[1] for b in built]
                         try:
@@ -117,13 +131,19 @@ def run(ctx):
                                            "%s %s multiunion of %d keys in %d operands -> %s (first 12 of result: %r)" % (fn, impl, len(keys), len(parts), bad, (lst or [])[:12]),
                                            {"family": fn, "impl": impl, "operands": model_ops if len(keys) < 2000 else "seeded", "seed_note": "VERIF_SEED reproduces"})
                 sizehist[n] = sizehist.get(n, 0) + 1
+                gathered = sum(len(op) for op in model_ops)
+                path = "radix" if gathered > 800 else "quicksort"
+                paths[(kk, path)] = paths.get((kk, path), 0) + 1
                 ctx.count((fn, tuple(keys)), nontrivial=len(keys) >= 2)
-                if res["C"] is not None and res["Py"] is not None and (n <= 1100 or rep == 0):
-                    terms.append("MU %s %d [%s] [%s] [%s]" % (
-                        "true" if kk in "IL" else "false", NBYTES[kk],
+                variants = [(0, res["C"])] if res["C"] == res["Py"] else [(1, res["C"]), (2, res["Py"])]
+                for which, r in variants:
+                    if r is None:
+                        continue
+                    terms.append("MU %d %s %d [%s] [%s]" % (
+                        which, "true" if kk in "IL" else "false", NBYTES[kk],
                         "; ".join("[%s]" % "; ".join(Z(k) for k in op) for op in model_ops),
-                        "; ".join(Z(k) for k in res["C"]), "; ".join(Z(k) for k in res["Py"])))
-                    meta.append((fn, n))
+                        "; ".join(Z(k) for k in r)))
+                    meta.append((fn, n, which))
                 if n == 27 and len(ctx.samples) < 2:
                     ctx.sample({"family": fn, "operands": model_ops, "result": res["C"]})
     total, bad, errs = caseutil.eval_cases("c11", HDR, "mucase_ok", terms, shard=40, ctype="wmu", timeout=1500)
@@ -134,6 +154,10 @@ def run(ctx):
         ctx.corr_mismatch("Sort model vs implementation", {"case": meta[i]})
     ctx.cov["size_histogram"] = {str(k): v for k, v in sorted(sizehist.items())}
     ctx.cov["families"] = fams
+    ctx.cov["sort_path_by_key_type"] = {"%s:%s" % k: v for k, v in sorted(paths.items())}
+    for kt in "IULQ":
+        if paths.get((kt, "radix"), 0) < 8 or paths.get((kt, "quicksort"), 0) < 4:
+            ctx.corr_mismatch("generator did not reach both sort paths", {"key type": kt, "paths": str(paths)})
 
 
 def replay(ctx, data):
